@@ -318,7 +318,8 @@ def s_coq(s) -> str:
     if k == "with":
         return f"(SWith {e_coq(s[1])} {slist(s[2])})"
     if k == "def":
-        return f"(SDef {q(s[2])} {elist(s[3], e_coq)} {elist(s[4], e_coq)} {slist(s[5])})"
+        bases = "true" if s[1] == "class" and s[4] else "false"
+        return f"(SDef {q(s[2])} {elist(s[3], e_coq)} {elist(s[4], e_coq)} {bases} {slist(s[5])})"
     if k == "otherstmt":
         return "SOther"
     raise ValueError(s)
